@@ -105,6 +105,11 @@ func valueIsUnpacker(v reflect.Value) (reflect.Value, bool) {
 }
 
 func typeIsUnpacker(t reflect.Type) (reflect.Value, bool) {
+	if t.Kind() == reflect.Interface {
+		// no value of an interface type can be made to call Unpack on
+		return reflect.Value{}, false
+	}
+
 	if implementsUnpacker(t) {
 		return reflect.New(t).Elem(), true
 	}
